@@ -39,8 +39,12 @@ TODO_REASON = ('no check registered for this property in this snapshot of /verif
 def main():
     checks = []
     na = []
+    with open(os.path.join(HERE, 'tools', 'ready.txt')) as f:
+        ready = set(f.read().split())
     for p in props.ALL:
         try:
+            if p not in ready:
+                raise ImportError(p)
             mod = props.load(p)
         except ImportError:
             na.append({'property_id': p, 'reason': TODO_REASON})
